@@ -7,10 +7,11 @@
      sec::connect (client info, mcs::Client::read, security header, license::client_connect).
    Server bytes enter as a chunked stream (Link.v) deframed by tpkt_read (Tpkt.v); every
    layout is read by the message interpreter (Msg.v) on the terms of LayoutsConnect.v; the
-   client's own messages are recorded at message level (what was sent, with the values
+   client's own messages are recorded at message level in a transport EVENT TRACE (raw
+   write / TLS handshake / write inside TLS), (what was sent, with the values
    that depend on server data).  External code is a Section variable: the BER parser
    (yasna), the TLS handshake (native-tls) and the CredSSP exchange (C07).  The model is
-   the model of the REPAIRED code (fix: commits for defects #5, #7, #8, #9 of DESIGN.md). *)
+   the model of the REPAIRED code (fix: commits for defects #4, #5, #7, #8, #9 of DESIGN.md). *)
 From RdpV Require Import Base Msg LayoutsGlobal LayoutsConnect Link Tpkt Global.
 Open Scope string_scope.
 Open Scope list_scope.
@@ -22,12 +23,13 @@ Record config := mkConfig {
   has_auth : bool;           (* an authentication protocol was supplied (Connector: always) *)
   restricted_admin : bool;
   user_first : bool;         (* HashMap iteration order of {"global","user"}: which join goes first *)
-  cred_units : N             (* UTF-16 code units of domain + user + password *)
+  cred_units : N;            (* UTF-16 code units of domain + user + password *)
+  check_cert : bool          (* check_certificate: the TLS handshake verifies the server certificate *)
 }.
 
 Inductive cmsg :=
 | CR (protocols flag : N)            (* X.224 connection request with RDP_NEG_REQ *)
-| TLS                                (* the transport is handed to TLS (ClientHello ...) *)
+| CSSP                               (* a CredSSP TSRequest (NTLM negotiate / authenticate token, TSCredentials) *)
 | CI (len selected : N)              (* MCS connect-initial; client core data echoes the selected protocol *)
 | ED | AU                            (* erect-domain, attach-user request *)
 | CJ (initiator channel : N)         (* channel-join request *)
@@ -41,8 +43,29 @@ Definition info_len (c : config) (v5 : bool) : N :=
 (* what is known about the server once MCS is connected *)
 Record server_data := mkServerData { channel_ids : list N; rdp_v5 : bool }.
 
+(* credential-bearing messages: NTLM tokens and CredSSP credentials, and the Client Info
+   PDU (clear-text domain / user name / password) *)
+Definition cred (m : cmsg) : bool :=
+  match m with CSSP | INFO _ _ _ => true | _ => false end.
+
+(* what the transport sees, in order: a message written on the raw stream, the TLS
+   handshake (and whether it completed), a message written inside TLS *)
+Inductive tev :=
+| RawWrite (m : cmsg)
+| TlsStart (ok : bool)
+| TlsWrite (m : cmsg).
+
+Fixpoint msgs (l : list tev) : list cmsg :=
+  match l with
+  | [] => []
+  | RawWrite m :: tl | TlsWrite m :: tl => m :: msgs tl
+  | TlsStart _ :: tl => msgs tl
+  end.
+
 (* ------------------------------------------------------------------ the run state *)
-Record cst := mkSt { s_in : stream; s_out : list cmsg; s_alloc : N }.
+(* s_tls = Link holds Stream::Ssl: every later write goes through the TLS stream *)
+Record cst := mkSt { s_in : stream; s_ev : list tev; s_tls : bool; s_alloc : N }.
+Definition s_out (s : cst) : list cmsg := msgs (s_ev s).
 Definition M (A : Type) := cst -> outcome A * cst.
 
 Definition ret {A} (a : A) : M A := fun s => (Ok a, s).
@@ -53,10 +76,11 @@ Definition bind {A B} (m : M A) (k : A -> M B) : M B := fun s =>
   | (Panic, s') => (Panic, s')
   | (Spin, s') => (Spin, s')
   end.
-Definition emit (m : cmsg) : M unit := fun s => (Ok tt, mkSt (s_in s) (s_out s ++ [m]) (s_alloc s)).
+Definition emit (m : cmsg) : M unit := fun s =>
+  (Ok tt, mkSt (s_in s) (s_ev s ++ [if s_tls s then TlsWrite m else RawWrite m]) (s_tls s) (s_alloc s)).
 (* a pure parse with the largest buffer it asked for *)
 Definition lift {A} (r : outcome A * N) : M A := fun s =>
-  (fst r, mkSt (s_in s) (s_out s) (N.max (s_alloc s) (snd r))).
+  (fst r, mkSt (s_in s) (s_ev s) (s_tls s) (N.max (s_alloc s) (snd r))).
 
 (* largest buffer tpkt::Client::read asks the link layer for (Link::read(n) = vec![0; n]);
    the 15-bit fast-path length is written with + (its low byte is zero before the or) *)
@@ -78,10 +102,10 @@ Definition tpkt_alloc (cs : stream) : N :=
 
 Definition recv_tpkt : M payload := fun s =>
   let (o, cs') := tpkt_read (s_in s) in
-  (o, mkSt cs' (s_out s) (N.max (s_alloc s) (tpkt_alloc (s_in s)))).
+  (o, mkSt cs' (s_ev s) (s_tls s) (N.max (s_alloc s) (tpkt_alloc (s_in s)))).
 Definition recv_x224 : M payload := fun s =>
   let (o, cs') := x224_read (s_in s) in
-  (o, mkSt cs' (s_out s) (N.max (s_alloc s) (tpkt_alloc (s_in s)))).
+  (o, mkSt cs' (s_ev s) (s_tls s) (N.max (s_alloc s) (tpkt_alloc (s_in s)))).
 
 (* try_let!(tpkt::Payload::Raw, ..) *)
 Definition expect_raw (pl : payload) : outcome bytes :=
@@ -125,8 +149,9 @@ Section WithProfile.
 Variable p : prof.
 (* external code *)
 Variable ber_parse : bytes -> outcome bytes.       (* yasna on the connect-response template: userData *)
-Variable tls_start : stream -> outcome stream.     (* native-tls handshake: the plaintext stream that follows *)
-Variable nla_start : stream -> outcome stream.     (* handshake + CredSSP (cssp_connect) *)
+Variable trusted : bool.                           (* the certificate the server presents chains to a trusted root *)
+Variable tls_start : stream -> outcome stream.     (* native-tls handshake at protocol level: the plaintext stream that follows *)
+Variable cssp_run : stream -> nat * outcome stream. (* cssp_connect over the TLS stream: TSRequests written, then its result *)
 
 (* Message::read with the largest buffer it asked for *)
 Definition rda (m : msg) (input : bytes) : outcome msg * N :=
@@ -169,13 +194,45 @@ Definition read_connection_confirm (input : bytes) : outcome N * N :=
                     end
      end), snd r).
 
-Definition start_with (f : stream -> outcome stream) : M unit := fun s =>
-  match f (s_in s) with
-  | Ok cs' => (Ok tt, mkSt cs' (s_out s) (s_alloc s))
-  | Err e => (Err e, s)
-  | Panic => (Panic, s)
-  | Spin => (Spin, s)
+(* the certificate part of the handshake: danger_accept_invalid_certs(!check_certificate) *)
+Definition tls_handshake (check trusted_cert : bool) : bool := negb check || trusted_cert.
+
+Definition log_ev (s : cst) (e : tev) : cst := mkSt (s_in s) (s_ev s ++ [e]) (s_tls s) (s_alloc s).
+
+(* Link::start_ssl: on success the link holds the TLS stream *)
+Definition start_ssl (c : config) : M unit := fun s =>
+  if tls_handshake (check_cert c) trusted then
+    match tls_start (s_in s) with
+    | Ok cs' => (Ok tt, mkSt cs' (s_ev s ++ [TlsStart true]) true (s_alloc s))
+    | Err e => (Err e, log_ev s (TlsStart false))
+    | Panic => (Panic, log_ev s (TlsStart false))
+    | Spin => (Spin, log_ev s (TlsStart false))
+    end
+  else (Err ESsl, log_ev s (TlsStart false)).
+
+Fixpoint emit_n (m : cmsg) (n : nat) : M unit :=
+  match n with O => ret tt | S n' => bind (emit m) (fun _ => emit_n m n') end.
+
+(* nla::cssp::cssp_connect on the link (external here: C01 / C07) *)
+Definition cssp_connect : M unit := fun s =>
+  let r := cssp_run (s_in s) in
+  match emit_n CSSP (fst r) s with
+  | (_, s1) =>
+      match snd r with
+      | Ok cs' => (Ok tt, mkSt cs' (s_ev s1) (s_tls s1) (s_alloc s1))
+      | Err e => (Err e, s1)
+      | Panic => (Panic, s1)
+      | Spin => (Spin, s1)
+      end
   end.
+
+(* tpkt::Client::start_nla *)
+Definition start_nla (c : config) : M unit := bind (start_ssl c) (fun _ => cssp_connect).
+
+(* the server must select a protocol the client requested; basic RDP security only when
+   nothing else was requested *)
+Definition sel_requested (offered_mask sel : N) : bool :=
+  if sel =? PROTOCOL_RDP then offered_mask =? PROTOCOL_RDP else negb (N.land offered_mask sel =? 0).
 
 Definition fail {A} (e : err) : M A := fun s => (Err e, s).
 
@@ -185,10 +242,10 @@ Definition x224_connect (c : config) : M N :=
   bind recv_tpkt (fun pl =>
   bind (lift (expect_raw pl, 0)) (fun b =>
   bind (lift (read_connection_confirm b)) (fun sel =>
-    if sel =? PROTOCOL_HYBRID then
-      (if has_auth c then bind (emit TLS) (fun _ => bind (start_with nla_start) (fun _ => ret sel))
-       else fail EInvalidOptionalField)
-    else if sel =? PROTOCOL_SSL then bind (emit TLS) (fun _ => bind (start_with tls_start) (fun _ => ret sel))
+    if negb (sel_requested (offered c) sel) then fail EInvalidProtocol
+    else if sel =? PROTOCOL_HYBRID then
+      (if has_auth c then bind (start_nla c) (fun _ => ret sel) else fail EInvalidOptionalField)
+    else if sel =? PROTOCOL_SSL then bind (start_ssl c) (fun _ => ret sel)
     else if sel =? PROTOCOL_RDP then ret sel
     else fail EInvalidProtocol)))).
 
@@ -461,6 +518,6 @@ Definition connect (c : config) : M (N * server_data) :=
   ret us))).
 
 Definition run_connect (c : config) (cs : stream) : outcome (N * server_data) * cst :=
-  connect c (mkSt cs [] 0).
+  connect c (mkSt cs [] false 0).
 
 End WithProfile.
